@@ -481,7 +481,11 @@ class LoopMixin:
             raise Unsupported("comprehension over a non-run symbolic iterable")
         xs = sp.sources[0][0]
         probe = st.clone()
-        conds, val = self.gen_apply(gv, e, probe)
+        from .values import NeedSplit
+        try:
+            conds, val = self.gen_apply(gv, e, probe)
+        except NeedSplit:
+            raise Unsupported("comprehension element branches on the element")
         if conds:
             # only the filter `if x.s` with identity element: DROP_EMPTY
             c = conds[0]
@@ -521,8 +525,14 @@ class LoopMixin:
             xs = sp.sources[0][0]
             e = Sym("chunk", fresh("e", T.ChunkS))
             probe = st.clone()
-            conds, val = self.gen_apply(src, e, probe)
-            if conds:
+            from .values import NeedSplit
+            try:
+                conds, val = self.gen_apply(src, e, probe)
+            except (NeedSplit, PyRaise):
+                conds, val = None, None
+            if conds is None or conds:
+                if kind == "sum" and conds is None:
+                    return self.sum_over_range(src, args[1] if len(args) > 1 else 0, st)
                 raise Unsupported("filtered fold")
             et = e.t
             if kind == "sum" and len(args) == 1 and is_int(val):
@@ -540,6 +550,8 @@ class LoopMixin:
                     return Sym("str", T.TEXT(xs))
                 if vt.eq(z3.simplify(COLORSTR(et))):
                     return Sym("str", STRFOLD(xs))
+            if kind == "sum":
+                return self.sum_over_range(src, args[1] if len(args) > 1 else 0, st)
             raise Unsupported(f"{kind} of an unrecognised element expression over runs")
         if not sp.sources and kind == "sum" and len(args) == 2:
             return self.sum_over_range(src, args[1], st)
@@ -577,7 +589,7 @@ class LoopMixin:
         o = self.comp_ordinal.get(id(gv.node))
         spec = self.contract.loops.get(("comp", o))
         if spec is None:
-            raise Unsupported("sum over range without an invariant for the comprehension")
+            raise Unsupported("sum() of this element expression needs an invariant for the comprehension in the sidecar")
         g = gv.node.generators[0]
         acc_name = "acc__"
         body = ast.Assign(targets=[ast.Name(id=acc_name, ctx=ast.Store())],
